@@ -222,6 +222,8 @@ func oracle(ops []string) (key, desc string) {
 					return e
 				}
 				snapWant = append(snapWant, copyMap(want))
+			case "fork":
+				snapWant = append(snapWant, copyMap(want))
 			case "sget", "shash", "sshape":
 				var idx int
 				fmt.Sscan(w[1], &idx)
@@ -440,6 +442,31 @@ func runSearch(a map[string]string) {
 		report(key, desc, map[string]interface{}{"scenario": "concurrency", "workers": 8, "seed": seed})
 		conc["rounds"] = k + 1
 	}
+	// process-local history: the same histories are answered early in the process and again after
+	// everything else has run (hasher pool, caches, singletons warmed and reused by thousands of
+	// other tries, rejected opens, injected faults); the answers must be identical
+	type early struct {
+		ops []string
+		ans []string
+	}
+	var earlies []early
+	answers := func(ops []string) []string {
+		m := newImpl()
+		var out []string
+		for _, l := range ops {
+			out = append(out, hx.Guard(func() string { return m.exec(l) }))
+		}
+		return out
+	}
+	for i := 0; i < 25; i++ {
+		g := newGen(r.Fork(), false)
+		var ops []string
+		for j := 0; j < 60; j++ {
+			ops = append(ops, g.op())
+		}
+		ops = append(ops, "hash", "iter -", "shape")
+		earlies = append(earlies, early{ops, answers(ops)})
+	}
 	// small alphabet, random sequences
 	alpha := smallAlphabet()
 	for i := 0; i < n; i++ {
@@ -460,6 +487,17 @@ func runSearch(a map[string]string) {
 			samples = append(samples, map[string]string{"history": strings.Join(ops[:3], " ; ") + " ; ...", "family": g.familyName()})
 		}
 		try(ops)
+	}
+	for _, e := range earlies {
+		evals += len(e.ops)
+		late := answers(e.ops)
+		for i := range late {
+			if late[i] != e.ans[i] {
+				report("process-history-dependent", fmt.Sprintf("op %d %q answered %q early in the process and %q after other work", i, e.ops[i], e.ans[i], late[i]),
+					map[string]interface{}{"ops": e.ops})
+				break
+			}
+		}
 	}
 	var vs []finding
 	keys := make([]string, 0, len(found))
